@@ -36,3 +36,35 @@ pub fn run_resize(spec: &ResizeSpec, src: &[u8], sentinel: u8, dst_placement: Pl
 pub fn src_image(spec: &ResizeSpec, placement: Placement) -> Buf {
     img::make_image(spec.pt, spec.sw, spec.sh, spec.content, placement)
 }
+
+/// Runs `f` inside a rayon pool of `threads` threads (rayon builds), else directly.
+#[cfg(feature = "rayon")]
+pub fn in_pool<R: Send>(threads: u32, f: impl FnOnce() -> R + Send) -> R {
+    if threads == 0 {
+        return f();
+    }
+    match rayon::ThreadPoolBuilder::new().num_threads(threads as usize).build() {
+        Ok(pool) => pool.install(f),
+        Err(_) => f(),
+    }
+}
+
+#[cfg(not(feature = "rayon"))]
+pub fn in_pool<R: Send>(_threads: u32, f: impl FnOnce() -> R + Send) -> R {
+    f()
+}
+
+pub fn has_rayon() -> bool {
+    cfg!(feature = "rayon")
+}
+
+use std::sync::OnceLock;
+static SRGB: OnceLock<fast_image_resize::PixelComponentMapper> = OnceLock::new();
+static GAMMA22: OnceLock<fast_image_resize::PixelComponentMapper> = OnceLock::new();
+
+pub fn srgb_mapper() -> &'static fast_image_resize::PixelComponentMapper {
+    SRGB.get_or_init(fast_image_resize::create_srgb_mapper)
+}
+pub fn gamma22_mapper() -> &'static fast_image_resize::PixelComponentMapper {
+    GAMMA22.get_or_init(fast_image_resize::create_gamma_22_mapper)
+}
